@@ -87,6 +87,8 @@ def expected(l):
     elif op in ("diff", "since_unix"):
         r = ta - tb
         lim = DMAX
+    elif op == "to_timespec":
+        return ("none" if a[0] > SMAX else ("some", str(a[0]), a[1])), a[0] >= SMAX - 1
     elif op == "elapsed":
         c = (int(l["c"][0]), int(l["c"][1]))
         tc = c[0] * NPS + c[1]
